@@ -15,7 +15,8 @@
     What is still refuted (known findings, not repaired; message handlers only): a pool-creation /
     issue fee AMOUNT of 2^255.2 or more passes validation and overflows the 315-bit LegacyDec in the fee
     split (coinswap, farm, token), and an htlc asset whose fixed fee + minimum swap amount reach 2^256
-    overflows the Int addition in CreateHTLC; the handler panics.  The [_partial] theorems carry the
+    overflows the Int addition in CreateHTLC, and a service minimum-deposit multiple near 2^62 overflows
+    the Int product with a price of 2^193 or more in BindService; the handler panics.  The [_partial] theorems carry the
     hypothesis [*_small] and the [_refuted] theorems show that it cannot be dropped. *)
 From Irismod Require Import Params.Model Params.Check Params.Proofs Params.Sound.
 
@@ -90,12 +91,22 @@ Proof. exact ht_no_panic. Qed.
 Print Assumptions htlc_validated_params_never_abort_partial.
 
 (** service: BindService (minimum deposit), CallService (timeout), RespondService (fee tax) and the
-    end blocker's slashing of expired requests, for non-negative prices and amounts below 2^255. *)
-Theorem service_validated_params_never_abort :
+    end blocker's slashing of expired requests.  Refuted by the same family: a validated minimum
+    deposit multiple of 2^62 makes [price * multiple] overflow the 256-bit Int for a price of 2^200,
+    a bind that under the default multiple is an ordinary rejection. *)
+Theorem service_validated_params_never_abort_refuted :
+  exists (p : sv_params) (o : sv_op) (w : Z),
+    validate_sv p = Ok /\ sv_small p /\ sv_path p o = Some (Panic w) /\ sv_path sv_defaults o = Some Reject.
+Proof. exists sv_big, (SvBind (2 ^ 200) 5000 3 1000000), 402. exact sv_refuted. Qed.
+Print Assumptions service_validated_params_never_abort_refuted.
+
+(** ... and holds for non-negative prices below 2^192 and amounts below 2^255 ([sv_small]: the
+    multiple is an int64). *)
+Theorem service_validated_params_never_abort_partial :
   forall (p : sv_params) (o : sv_op) (r : res),
-    validate_sv p = Ok -> sv_op_wf o -> sv_path p o = Some r -> res_outcome r <> Abort.
+    validate_sv p = Ok -> sv_small p -> sv_op_wf o -> sv_path p o = Some r -> res_outcome r <> Abort.
 Proof. exact sv_no_panic. Qed.
-Print Assumptions service_validated_params_never_abort.
+Print Assumptions service_validated_params_never_abort_partial.
 
 (** coinswap: pool creation (fee split), both swap directions, unilateral add / remove. *)
 Theorem coinswap_validated_params_never_abort_refuted :
@@ -184,10 +195,10 @@ Qed.
 
 Example c16_nonvacuous_service :
   let p := mkSv 1 1 [] (Some 999999999999999999) (Some 1000000000000000000) 1 1 1 1 true in
-  validate_sv p = Ok /\ sv_op_wf (SvBlocks [5000; 1])
+  validate_sv p = Ok /\ sv_small p /\ sv_op_wf (SvBlocks [5000; 1])
   /\ sv_path p (SvBlocks [5000; 1]) = Some Done /\ sv_path p (SvRespond 100 100) = Some Done.
 Proof.
-  cbv zeta. split; [vm_compute; reflexivity|]. split; [|split; vm_compute; reflexivity].
+  cbv zeta. split; [vm_compute; reflexivity|]. split; [vm_compute; reflexivity|]. split; [|split; vm_compute; reflexivity].
   simpl. repeat apply Forall_cons; try apply Forall_nil; (split; [vm_compute; discriminate|vm_compute; reflexivity]).
 Qed.
 
